@@ -1581,6 +1581,132 @@ fn run_case(c: &Case) -> String {
                                     out(&mut buf, &format!("ADAPT DIFFERENT {verdict}"));
                                 }
                             }
+                            // SECOND USE: a TestCase that has been iterated (completely, partly, several times) behaves like one
+                            // that has just been bound - with the same driver script, with a driver of another layout, and after
+                            // the caller edited the public `signals` (a default, a width) the way it would before a first run
+                            {
+                                let mode = c.seed % 3;
+                                let mut c2 = c.clone();
+                                if mode == 0 && !c2.layout.is_empty() {
+                                    let n = tc.signals.len();
+                                    let other = (0..n).find(|i| !c2.layout.contains(i) && !tc.signals[*i].is_input());
+                                    let first = c2.layout.remove(0);
+                                    c2.layout.push(other.unwrap_or(first));
+                                }
+                                let fresh = catch_unwind(AssertUnwindSafe(|| {
+                                    ParsedTestCase::from_str(&c.src).ok().and_then(|p| p.with_signals(c.sigs.clone()).ok())
+                                }))
+                                .unwrap_or(None);
+                                if let Some(mut fresh) = fresh {
+                                    let mut used = tc.clone();
+                                    let mut used_direct = tc;
+                                    for (i, b) in &c.rebits {
+                                        if *i < fresh.signals.len() {
+                                            fresh.signals[*i].bits = *b;
+                                        }
+                                    }
+                                    let edit = |t: &mut TestCase| {
+                                        if mode == 1 {
+                                            if let Some(sg) = t.signals.iter_mut().find(|sg| sg.is_input()) {
+                                                sg.bits = sg.bits % 8 + 1;
+                                                match &mut sg.typ {
+                                                    SignalType::Input { default } | SignalType::Bidirectional { default } => {
+                                                        *default = match *default {
+                                                            InputValue::Value(v) => InputValue::Value(v ^ 1),
+                                                            InputValue::Z => InputValue::Value(1),
+                                                        }
+                                                    }
+                                                    _ => {}
+                                                }
+                                            }
+                                        }
+                                    };
+                                    edit(&mut fresh);
+                                    edit(&mut used);
+                                    edit(&mut used_direct);
+                                    let run_one = |t: &TestCase| {
+                                        let mut b = String::new();
+                                        let sh = Sh::default();
+                                        if c2.wdefault {
+                                            let mut d = DriverDefaultW(Script::new(&c2, &t.signals, sh.clone()));
+                                            run_dynamic(&c2, t, &mut d, &sh, &mut b);
+                                        } else {
+                                            let mut d = DriverOverrideW(Script::new(&c2, &t.signals, sh.clone()));
+                                            run_dynamic(&c2, t, &mut d, &sh, &mut b);
+                                        }
+                                        b
+                                    };
+                                    let a = run_one(&fresh);
+                                    let verdict = [("the used test", run_one(&used_direct)), ("a clone of the used test", run_one(&used))]
+                                        .iter()
+                                        .find_map(|(who, b)| {
+                                            if *b == a {
+                                                None
+                                            } else {
+                                                let (la, lb): (Vec<&str>, Vec<&str>) = (a.lines().collect(), b.lines().collect());
+                                                let i = (0..la.len().min(lb.len())).find(|&i| la[i] != lb[i]).unwrap_or(la.len().min(lb.len()));
+                                                Some(format!(
+                                                    "{who} (mode {mode}) line {i}: [{:.70}] vs fresh [{:.70}]",
+                                                    lb.get(i).unwrap_or(&"<end>"),
+                                                    la.get(i).unwrap_or(&"<end>")
+                                                ))
+                                            }
+                                        });
+                                    match verdict {
+                                        None => out(&mut buf, "REUSE same"),
+                                        Some(v) => out(&mut buf, &format!("REUSE DIFFERENT {v}")),
+                                    }
+                                    // resetRandom replays the run's own start, whatever the seed: the same test once more with
+                                    // the generator seeded by the system; every two segments of draws agree as far as their bounds do
+                                    if c.src.contains("random") {
+                                        verif_hooks::set_seed_override(None);
+                                        let _ = verif_hooks::take_rng_log();
+                                        let _ = catch_unwind(AssertUnwindSafe(|| {
+                                            let sh = Sh::default();
+                                            let mut d = DriverOverrideW(Script::new(c, &fresh.signals, sh.clone()));
+                                            if let Ok(it) = fresh.try_iter(&mut d) {
+                                                let mut k = 0;
+                                                for item in it {
+                                                    k += 1;
+                                                    if k >= c.max || (item.is_err() && !c.cont) {
+                                                        break;
+                                                    }
+                                                }
+                                            }
+                                        }));
+                                        let log = verif_hooks::take_rng_log();
+                                        verif_hooks::set_seed_override(Some(c.seed));
+                                        let mut segs: Vec<Vec<(i64, i64)>> = vec![vec![]];
+                                        let mut bound = 0i64;
+                                        for ev in &log {
+                                            match ev {
+                                                verif_hooks::RngEvent::Bound(b) => bound = *b,
+                                                verif_hooks::RngEvent::Draw(d) => segs.last_mut().unwrap().push((bound, *d)),
+                                                verif_hooks::RngEvent::Reset => segs.push(vec![]),
+                                            }
+                                        }
+                                        let mut problem = String::new();
+                                        'outer: for i in 0..segs.len() {
+                                            for j in i + 1..segs.len() {
+                                                for k in 0..segs[i].len().min(segs[j].len()) {
+                                                    if segs[i][k].0 != segs[j][k].0 {
+                                                        break;
+                                                    }
+                                                    if segs[i][k].1 != segs[j][k].1 {
+                                                        problem = format!("segments {i} and {j} draw {k} bound {}: {} vs {}", segs[i][k].0, segs[i][k].1, segs[j][k].1);
+                                                        break 'outer;
+                                                    }
+                                                }
+                                            }
+                                        }
+                                        if problem.is_empty() {
+                                            out(&mut buf, &format!("FREERUN same segments={}", segs.len()));
+                                        } else {
+                                            out(&mut buf, &format!("FREERUN DIFFERENT {problem}"));
+                                        }
+                                    }
+                                }
+                            }
                         }
                         "static" => run_static(c, &tc, &mut buf),
                         "multi" => run_multi(c, &tc, &mut buf),
